@@ -350,7 +350,7 @@ def parse_shim(path):
 
 def run_breadlog(built, box, config, check=False, cwd=None, rules=None, shim=False, trace=False,
                  strace=False, timeout=120, env_extra=None, tmpdir=None, cfg_arg=None, async_signal=None, stdio_ops=False, stdin_tty=False,
-                 argv_override=None, wrap=None, read_ops=False):
+                 argv_override=None, wrap=None, read_ops=False, nofile=None):
     """Run the real binary once. config: absolute path of the yaml (cfg_arg overrides what is passed)."""
     argv = [built.path, "-c", cfg_arg or config]
     if check:
@@ -391,8 +391,13 @@ def run_breadlog(built, box, config, check=False, cwd=None, rules=None, shim=Fal
     if stdin_tty:
         import pty
         pty_fds = pty.openpty()      # an interactive invocation: stdin is a terminal
+    pre = None
+    if nofile:
+        # a low descriptor limit for the child only (RLIMIT_NOFILE): descriptors that are not given back show up after few files
+        def pre():
+            resource.setrlimit(resource.RLIMIT_NOFILE, (nofile, nofile))
     p = subprocess.Popen(full, cwd=cwd or box.proj, env=env, stdout=subprocess.PIPE, stderr=subprocess.PIPE,
-                         stdin=(pty_fds[1] if pty_fds else subprocess.DEVNULL))
+                         stdin=(pty_fds[1] if pty_fds else subprocess.DEVNULL), preexec_fn=pre)
     if pty_fds:
         os.close(pty_fds[1])
     rec.timed_out = False
